@@ -588,6 +588,29 @@ def do_ffdh(case):
         want = pow(yb_i, xa, p)
         if int.from_bytes(sa, "big") != want:
             return bad("secret-wrong:ffdh", str(g), labels=labels)
+        if case.get("lead0"):
+            # a peer value for which Z starts with a zero byte (found by
+            # search): TLS <= 1.2 strips leading zero bytes of Z (RFC 5246
+            # 8.1.2), TLS 1.3 keeps Z as long as the prime (RFC 8446 7.4.1)
+            nb = (p.bit_length() + 7) // 8
+            for k in range(2, 4000):
+                yk = pow(a.generator, k, p)
+                z = pow(yk, xa, p)
+                if z.bit_length() <= 8 * (nb - 1):
+                    break
+            else:
+                return good(nt=False, labels=labels + ["no-lead0-found"])
+            share = yk if ver < (3, 4) else bytearray(yk.to_bytes(nb, "big"))
+            sz = bytes(a.calc_shared_key(xa, share))
+            wantb = z.to_bytes(nb, "big") if ver >= (3, 4) else \
+                z.to_bytes((z.bit_length() + 7) // 8, "big")
+            if sz != wantb:
+                return bad("secret-encoding:ffdh:%s" % (
+                    "tls13" if ver >= (3, 4) else "tls12-"),
+                    "Z has %d significant bytes, prime %d: got %d bytes" % (
+                        (z.bit_length() + 7) // 8, nb, len(sz)),
+                    labels=labels)
+            return good(labels=labels + ["lead0"])
         return good(nt=False, labels=labels)
     p = a.prime
     val = {"zero": 0, "one": 1, "pm1": p - 1, "p": p, "pp1": p + 1,
@@ -952,6 +975,12 @@ def explicit(tier, seed):
                   "trailing", "empty"):
             yield {"f": "eddsa_sig", "key": name, "mut": m,
                    "ossl": m == "none", "s": seed, "pos": 17, "n": 20}
+    for grp, vers in (("custom", ([3, 1], [3, 3])),
+                      ("ffdhe2048", ([3, 3], [3, 4]))):
+        for ver in vers:
+            for k in range(3):
+                yield {"f": "ffdh", "group": grp, "ver": ver, "bad": None,
+                       "lead0": True, "s": seed + k, "pos": 0, "n": 0}
     for i, lo in enumerate(X25519_LOW):
         yield {"f": "ecdh", "group": "x25519", "ver": [3, 4],
                "bad": "low_order", "s": i, "pos": 0, "n": 0}
